@@ -23,7 +23,12 @@ Four families of cases (each a complete finite product, see menus()):
 Every archiving / pruning run is executed once to completion (counting its ZK
 writes), then cut before write k for every k (fakezk.Crash raised from the
 tree hook), the cut state checked, the archiver re-run to completion on the
-cut state and checked again.
+cut state and checked again ("kill" flavour).  "Error" flavour: for every k
+that one write fails with kazoo ConnectionLoss (request lost = not applied;
+thorough also: applied, reply lost), later requests work; the real code
+reacts (retries under zkutils.with_retry, propagates otherwise - a propagated
+kazoo exception ends that run, nothing else is swallowed), the resulting tree
+is checked with the same oracle, the archiver re-run and checked again.
 """
 import collections
 import itertools
@@ -34,6 +39,9 @@ import sys
 import tempfile
 import time
 import zlib
+
+import kazoo.exceptions
+import kazoo.retry
 
 from mc import fakezk
 from mc import vclock
@@ -48,6 +56,23 @@ from treadmill.trace.server import zk as server_zk  # noqa: E402
 
 class HarnessError(Exception):
     pass
+
+
+_REAL_RETRY = kazoo.retry.KazooRetry
+
+
+class _NoSleepRetry(_REAL_RETRY):
+    """zkutils.with_retry builds a kazoo.retry.KazooRetry per call; its
+    back-off sleeps (real time.sleep + random jitter) are environment, not
+    behaviour: they are made instantaneous."""
+
+    def __init__(self, *a, **kw):
+        kw['sleep_func'] = lambda _secs: None
+        _REAL_RETRY.__init__(self, *a, **kw)
+
+
+def install_retry():
+    kazoo.retry.KazooRetry = _NoSleepRetry
 
 
 # -- time ---------------------------------------------------------------------
@@ -120,6 +145,28 @@ class OrderClient(fakezk.Client):
     """fakezk client whose get_children returns the names in a harness-chosen
     order (real ZooKeeper promises none)."""
     order = 'ins'
+    world = None
+
+    def _after(self):
+        w = self.world
+        if w is not None and w.raise_after:
+            w.raise_after = False
+            raise kazoo.exceptions.ConnectionLoss('injected (reply lost)')
+
+    def create(self, *a, **kw):
+        out = fakezk.Client.create(self, *a, **kw)
+        self._after()
+        return out
+
+    def set(self, *a, **kw):
+        out = fakezk.Client.set(self, *a, **kw)
+        self._after()
+        return out
+
+    def delete(self, *a, **kw):
+        out = fakezk.Client.delete(self, *a, **kw)
+        self._after()
+        return out
 
     def get_children(self, path, watch=None, include_data=False):
         out = fakezk.Client.get_children(self, path, watch=watch,
@@ -218,8 +265,12 @@ class World:
         self.admin = fakezk.Client(t, ADMIN_SID)
         self.arch = OrderClient(t, ARCH_SID)
         self.arch.order = self.order
+        self.arch.world = self
         self.writes = 0
         self.crash_at = None
+        self.fail_at = None         # (write index, 'lost' | 'applied')
+        self.raise_after = False
+        self.failed = None
         self.del_site = {}
         self.uploads = 0
         t.hook = self._hook
@@ -243,6 +294,15 @@ class World:
         if self.crash_at is not None and self.writes == self.crash_at:
             self.crash_at = None
             raise fakezk.Crash()
+        if self.fail_at is not None and self.writes == self.fail_at[0]:
+            how = self.fail_at[1]
+            self.fail_at = None
+            self.failed = (op, path, _site())
+            if how == 'lost':
+                # the request never reaches the ensemble
+                raise kazoo.exceptions.ConnectionLoss('injected (request lost)')
+            # the write is applied, the reply is lost
+            self.raise_after = True
         self.writes += 1
         if op == 'delete':
             self.del_site[path] = _site()
@@ -361,6 +421,27 @@ def run_cut(world, step, k):
     finally:
         world.crash_at = None
     return False
+
+
+def run_fail(world, step, k, how):
+    """Run `step`; its (k+1)-th write fails once with ConnectionLoss (`how`:
+    'lost' = not applied, 'applied' = applied but the reply is lost); later
+    requests work again.  The real code reacts as it likes.
+    -> ('completed' | 'aborted', violation-or-None)"""
+    world.fail_at = (world.writes + k, how)
+    world.failed = None
+    try:
+        try:
+            run_archiver(world, step)
+        except kazoo.exceptions.KazooException:
+            return 'aborted', None          # the archiver process gives up
+        finally:
+            world.fail_at = None
+            world.raise_after = False
+    except Exception as exc:  # pylint: disable=broad-except
+        err = _raised(exc, step)
+        return 'aborted', err
+    return 'completed', None
 
 
 # -- oracle -------------------------------------------------------------------
@@ -590,28 +671,33 @@ def build(case):
     raise HarnessError('unknown family %r' % fam)
 
 
+def _raised(exc, step):
+    import traceback
+    tb = traceback.extract_tb(exc.__traceback__)
+    site = 'harness'
+    for fr in reversed(tb):
+        if '/treadmill/' in fr.filename:
+            site = '%s.%s' % (
+                fr.filename.split('/treadmill/')[-1][:-3].replace('/', '.'),
+                fr.name)
+            break
+    if site == 'harness':
+        raise exc
+    return _v('archiver-raised', site, 'run',
+              {'step': list(step),
+               'error': '%s: %s' % (type(exc).__name__, str(exc)[:200])})
+
+
 def _complete(world, step):
     try:
         run_archiver(world, step)
     except Exception as exc:  # pylint: disable=broad-except
-        import traceback
-        tb = traceback.extract_tb(exc.__traceback__)
-        site = 'harness'
-        for fr in reversed(tb):
-            if '/treadmill/' in fr.filename:
-                site = '%s.%s' % (
-                    fr.filename.split('/treadmill/')[-1][:-3].replace('/', '.'),
-                    fr.name)
-                break
-        if site == 'harness':
-            raise
-        return _v('archiver-raised', site, 'run',
-                  {'step': list(step),
-                   'error': '%s: %s' % (type(exc).__name__, str(exc)[:200])})
+        return _raised(exc, step)
     return None
 
 
 LAST = {'log': []}
+ERROR_VARIANTS = {'list': ('lost',)}    # set per tier by the property module
 
 
 def explore_step(base, kind, step, checker, out, stats):
@@ -644,6 +730,31 @@ def explore_step(base, kind, step, checker, out, stats):
             continue
         checker(c, 're-run after cut before write %d/%d of %s'
                 % (k, n, step[0]))
+    # error flavour: write k fails once with ConnectionLoss, the code reacts
+    for how in ERROR_VARIANTS['list']:
+        for k in range(n):
+            c = base.clone()
+            outcome, err = run_fail(c, step, k, how)
+            if c.failed is None:
+                raise HarnessError('failure %d of %d did not fire (%r)'
+                                   % (k, n, step))
+            stats['error_points'] += 1
+            stats['error_points_' + how] += 1
+            stats['error_runs_' + outcome] += 1
+            stats['runs'] += 1
+            where = ('ConnectionLoss (%s) on write %d/%d (%s) of %s, run %s'
+                     % (how, k, n, c.failed[0], step[0], outcome))
+            if err:
+                err['detail']['where'] = where
+                out.append(err)
+            checker(c, 'after ' + where)
+            err = _complete(c, step)
+            stats['runs'] += 1
+            if err:
+                err['detail']['where'] = 're-run after ' + where
+                out.append(err)
+                continue
+            checker(c, 're-run after ' + where)
     scratch_sweep()
     return w
 
